@@ -190,7 +190,7 @@ func (fr *Frame) execInstr(ins ssa.Instruction, st *State) {
 		ref := fr.allocFresh(st, et, Term{})
 		key := r.eng.heapKeyArr(et)
 		es := u.sortOf(et)
-		r.heapSet(st, key, store(r.heapGet(st, key), ref, Term{fmt.Sprintf("((as const %s) %s)", arraySort("Int", es), u.zeroOf(et).S), arraySort("Int", es)}))
+		r.heapSet(st, key, store(r.heapGet(st, key), ref, Term{fmt.Sprintf("((as const %s) %s)", arraySort("Int", es), literalize(u.zeroOf(et).S)), arraySort("Int", es)}))
 		fr.set(x, app("Slice", "mk_slice", ref, intLit(0), ln, cp))
 	case *ssa.Slice:
 		fr.execSlice(x, st)
